@@ -204,7 +204,8 @@ def run(ctx):
     ctx.ob("C15.R1", fp, len(xors) >= 2 and all(N.contains(t, IN) for t in xors), "the transform is an element-wise XOR over the data", key="ProcessXor xor")
     ident = [g for g, t in a if t == IN]
     ctx.ob("C15.R1", fp, bool(ident), "the zero-key shortcut leaves the data unchanged (identical in both directions by the row comparison)", key="ProcessXor shortcut")
-    ctx.floor("C15.R1", 3)
+    C01.init_store_checks(ctx, "C15.R1", only={"ProcessXor", "ProcessRotateLeft", "Transformed", "Restreamed", "Compressed", "Tunnel"})   # key / amount / group stored as given
+    ctx.floor("C15.R1", 3 + 8)
 
     # ---- R2 ProcessRotateLeft
     fp, a = transform_rows(ctx, "ProcessRotateLeft", "_parse")
@@ -242,6 +243,20 @@ def run(ctx):
         ctx.ob(o.rule, o.where, o.ok, o.what, key=o.key, loc=o.loc, detail=o.detail)
     ctx.floor("C15.R4", 5)
 
+    # ---- R8 the same transform on every call: parse and build of the transform classes write nothing into the construct (shared with C17.R1)
+    from . import C17
+    shared17 = C17.module_names(M)
+    for cls17 in ("ProcessXor", "ProcessRotateLeft", "Transformed", "Restreamed", "Tunnel", "Compressed"):
+        for meth17 in ("_parse", "_build", "_decode", "_encode"):
+            if meth17 not in M.cls(cls17).methods:
+                continue
+            f17 = M.method(cls17, meth17)
+            sub17 = type(ctx)("C17", ctx.tier, ctx.root, model=ctx.model)
+            sub17._summ = summariser(ctx)
+            C17.check_effects(sub17, f17, cls17, shared17, True)
+            bad = [o for o in sub17.obligations if not o.ok]
+            ctx.ob("C15.R8", f17, not bad, "%s.%s keeps no state between calls%s" % (cls17, meth17, (": " + bad[0].what) if bad else ""), key="stateless")
+    ctx.floor("C15.R8", 10)
     # ---- R7 length preservation
     length_preserving(ctx, "C15.R7")
     ctx.floor("C15.R7", 4)
